@@ -235,6 +235,11 @@ func (in *Interp) registerProtoIntrinsics() {
 		r[p+".RegisterExtension"] = nop
 		r[p+".RegisterXXX"] = nop
 	}
+	clone := func(in *Interp, fr *frame, args []Value) Value {
+		return in.deepCopy(args[0], map[*Cell]*Cell{})
+	}
+	r["github.com/gogo/protobuf/proto.Clone"] = clone
+	r["github.com/golang/protobuf/proto.Clone"] = clone
 	r["github.com/gogo/protobuf/proto.MessageName"] = func(in *Interp, fr *frame, args []Value) Value {
 		i := args[0].(Iface)
 		return mkStr(in.protoByType[i.T])
